@@ -12,6 +12,8 @@ claimed = {
          "Operands of user-defined types with __index__ are outside the functional clauses (frame is 'modifies everything'); str, range and bytes are not yet under contract; replay of sequence counterexamples is not implemented (violations there are reported with no-failing-input-found).", "4 (C13)"),
  "C12": ("VM side of stack safety: for 84 opcode handlers registered in the VM's jump table and for Vm.Call, the change of the value-stack length on the normal (err == nil) edge is proved EQUAL to compile.opcodeStackEffect(op, arg) - the real predictor function of the compiler, encoded from its own SSA, not re-typed - for every operand value and every stack, the block-stack delta is proved, the frame pointer is unchanged and (where provable) no nil is left on the stack. Equality of every step delta with the predictor gives equality of depths by induction on execution length (meta-argument).",
          "Exception/with/finally opcodes whose delta depends on the mode (SETUP_WITH, SETUP_EXCEPT/FINALLY, WITH_CLEANUP, END_FINALLY, POP_EXCEPT, FOR_ITER, JUMP_IF_*_OR_POP, YIELD_*), the assembler (positions, jumps, lnotab), operand tables and the compiler-side depth induction are not yet under contract; the precondition 'stack deep enough' is assumed (established by the compiler). Calls out of the VM are assumed not to write the running frame's fields (ownership assumption listed in evidence).", "4 (C12 group 1)"),
+ "C09": ("Sequential ghost protocol of the context lifecycle, proved over the real SSA of pushBusy, popBusy, RunCode, ModuleInit, ResolveAndCompile and Close: a ghost counter models the WaitGroup (Done requires counter > 0, so a negative-counter panic is an unprovable precondition), every entry point performs Done exactly as often as Add on every path including rejected requests, a request on a closed context returns an ordinary error, Close leaves closed = true, counter = 0, close callbacks run exactly once and the done channel closed exactly once (closing a closed channel is a safety obligation), and a second Close changes nothing (sync.Once modelled by a ghost flag with the closure body encoded in place).",
+         "Interleavings are NOT decided: the Owicki-Gries layer of DESIGN.md section 4 is not built, so 'under every interleaving' is covered only for the schedule-independent facts above; the check-then-Add window of pushBusy (A22) is a defect seen by reading that no built obligation expresses. sync.WaitGroup/Once and close(chan) are trusted contracts; plain bool fields are treated as sequentially consistent.", "4 (C09)"),
 }
 na = {
  "C06": "not applicable to this technique family: the only faithful specification of the LALR parser is the grammar itself (DESIGN.md section 5)",
